@@ -116,8 +116,16 @@ pub fn definition(src: &mut Src, kind: Kind) -> Item {
             item(format!("DEFWAVEFORM {name}{params}:\n    {body}"))
         }
         Kind::Cal => {
-            let head = *src.pick(&["X", "RX(%t)", "RX(pi)", "DAGGER X", "CZ"]);
-            let qubits = if head == "CZ" { *src.pick(&["0 1", "1 0", "a b"]) } else { *src.pick(&["0", "1", "q", "7"]) };
+            // usually a small pool of signatures (so that redefinition happens); one time in four a
+            // signature that shares a proper prefix of its qubit list, parameter list or modifier
+            // list with one from the pool — distinct signatures that a careless comparison merges
+            let (head, qubits) = if src.chance(3, 4) {
+                let head = *src.pick(&["X", "RX(%t)", "RX(pi)", "DAGGER X", "CZ"]);
+                (head, if head == "CZ" { *src.pick(&["0 1", "1 0", "a b"]) } else { *src.pick(&["0", "1", "q", "7"]) })
+            } else {
+                let head = *src.pick(&["X", "RX(%t)", "RX(%t, %u)", "RX(pi, 1)", "RX", "DAGGER X", "DAGGER DAGGER X", "CZ"]);
+                (head, *src.pick(&["0", "0 1", "0 1 2", "q", "q 1", "1", "1 0"]))
+            };
             let body = match src.below(3) {
                 0 => format!("PRAGMA k{v}"),
                 1 => format!("PULSE 0 \"a\" wa\n    PRAGMA k{v}"),
@@ -126,7 +134,7 @@ pub fn definition(src: &mut Src, kind: Kind) -> Item {
             item(format!("DEFCAL {head} {qubits}:\n    {body}"))
         }
         Kind::MeasureCal => {
-            let head = *src.pick(&["MEASURE 0 addr", "MEASURE 1 addr", "MEASURE q addr", "MEASURE 0", "MEASURE q", "MEASURE 4 dest"]);
+            let head = *src.pick(&["MEASURE 0 addr", "MEASURE 1 addr", "MEASURE q addr", "MEASURE 0", "MEASURE q", "MEASURE 4 dest", "MEASURE 0 dest", "MEASURE!mid 0 addr", "MEASURE!mid 0"]);
             let body = match src.below(2) {
                 0 => format!("PRAGMA m{v}"),
                 _ => format!("FENCE 6\n    PRAGMA m{v}"),
